@@ -107,7 +107,7 @@ class Model:
 # ----------------------------------------------------------- operations ----
 OPS = ["translate", "rotate-z", "rotate-x", "scale", "scale-xyz", "scale-vp", "reflect", "mirror",
        "pivot", "save", "save-a", "restore", "restore-a", "delete-a", "ctx", "ctx-named",
-       "ctx-raise", "ctx-pop", "ctx-named-pop", "ctx-raise-pop", "ctx-pivot", "pivot2"]
+       "ctx-raise", "ctx-pop", "ctx-named-pop", "ctx-raise-pop", "ctx-pivot", "pivot2", "pivot-z", "pivot-x"]
 # bodies of the context-manager operations
 BODIES = {
     "ctx": ["translate", "rotate-z", "save", "restore"],
@@ -175,6 +175,10 @@ def apply_op(op, g, model, after):
     if op == "pivot2":
         return both(lambda: t.set_pivot((-3.0, 0.5, 1.0)),
                     lambda: setattr(model, "pivot", (-3.0, 0.5, 1.0)))
+    if op == "pivot-z":     # a pivot on one coordinate axis only
+        return both(lambda: t.set_pivot((0.0, 0.0, 5.0)), lambda: setattr(model, "pivot", (0.0, 0.0, 5.0)))
+    if op == "pivot-x":
+        return both(lambda: t.set_pivot((4.0, 0.0, 0.0)), lambda: setattr(model, "pivot", (4.0, 0.0, 0.0)))
     if op == "save":
         return both(lambda: t.save_state(), lambda: model.stack.append(model.snapshot()))
     if op == "save-a":
